@@ -561,19 +561,25 @@ theorem C11_acquire_keeps_ammo (mws : List (String × String)) (st : Store) (src
 
 /-- … and every delivered request has a header object of its own (the ids are pairwise distinct and new), whose content
 — after ALL deliveries — is what the request carries when it is the only one ever built from its decoded ammo: a
-function of that ammo and the middlewares, not of the deliveries before or after it. -/
+function of that ammo and the middlewares, not of the deliveries before or after it. (Round-6 audit: stated without
+totalised look-ups — delivery `j` HAS a header object `id`, its decoded ammo HAS a header `hd`, and the store HAS an object
+`id` holding exactly `delivered mws hd`.) -/
 theorem C11_acquire_isolated (mws : List (String × String)) (st : Store) (srcs : List Nat)
     (h : ∀ s ∈ srcs, s < st.length) :
     let r := acquires (buildOfFlows Pandora.Gen.Locks.ammoFlows) mws st srcs
     r.2.Nodup ∧ (∀ id ∈ r.2, st.length ≤ id) ∧
-    ∀ j (hj : j < srcs.length), r.1.getD (r.2.getD j 0) [] = delivered mws (st.getD srcs[j] []) := by
+    ∀ j (hj : j < srcs.length), ∃ (id : Nat) (hd : Hdr), r.2[j]? = some id ∧ st[srcs[j]]? = some hd ∧
+      r.1[id]? = some (delivered mws hd) := by
   rw [C11_request_map_fresh, acquires_fresh mws srcs st h]
   refine ⟨List.nodup_range', ?_, ?_⟩
   · intro id hid
     have := List.mem_range'_1.mp hid
     omega
   · intro j hj
-    simp [List.getD_eq_getElem?_getD, hj]
+    have hs : srcs[j] < st.length := h _ (List.getElem_mem hj)
+    refine ⟨st.length + j, st[srcs[j]], by simp [hj], by simp, ?_⟩
+    rw [List.getElem?_append_right (by omega)]
+    simp [hj, List.getD_eq_getElem?_getD, hs]
 
 /-- non-vacuity: two decoded ammo (one with a Host header), a Date middleware, five deliveries over two and a half
 passes: five new objects, each with one Date value; the decoded ammo as before -/
@@ -921,6 +927,17 @@ example : ∀ (k : Nat) (ops : List OOp), poolOthers[k]? = some ops → progOk p
 example : (exec (initCfgO poolCls (poolProgs Pandora.Gen.InstLoop.iterBody poolIters poolOthers))
     ((List.range 60).flatMap fun _ => [0, 1, 2, 3])).length = 72 := by decide
 
+/-- non-vacuity of `C11_pool_gun_exclusive` / `C11_pool_ammo_exclusive`: in that run instance 0 receives ammo 0 at
+position 16 (the provider goroutine refilled it before), shoots it — touching the ammo and its own gun — and gives it back
+at position 34, whereupon instance 1 receives it: the stretch in between decomposes the trace as the theorem asks -/
+example :
+    let tr := exec (initCfgO poolCls (poolProgs Pandora.Gen.InstLoop.iterBody poolIters poolOthers))
+      ((List.range 60).flatMap fun _ => [0, 1, 2, 3])
+    tr = tr.take 16 ++ Ev.acq 0 (oAmmo 0) :: ((tr.drop 17).take 17 ++ tr.drop 34) ∧
+    (∀ e ∈ (tr.drop 17).take 17, e ≠ Ev.rel 0 (oAmmo 0)) ∧
+    Ev.acc 0 (oAmmo 0) true 0 ∈ (tr.drop 17).take 17 ∧ Ev.acc 0 (oGun 0) true 0 ∈ tr ∧
+    tr[34]? = some (Ev.rel 0 (oAmmo 0)) ∧ tr[35]? = some (Ev.acq 1 (oAmmo 0)) := by decide
+
 /-- the loop body with the `Release` moved before the wait (an instance loop that gives its ammo back before shooting it) -/
 def earlyReleaseBody : List Pandora.Model.C03Loop.Instr :=
   [.acquireOrReturn "ammo", .release "ammo", .waitOrReturn, .ifFire, .metricAdd "Request" 1, .shoot "ammo",
@@ -958,6 +975,12 @@ theorem C11_pool_early_release_counterexample :
       have hq' : q = 13 := by omega
       subst hq'
       simp at hacq
+
+/-- the same facts as the driver judges them for the case `mode=locks` (`Spec.C11.judgeLoop`): the regenerated body passes,
+the early release is reported with the path that breaks the discipline (everything succeeds: Acquire, Release, …, Shoot) -/
+example : Pandora.Spec.C11.loopBad Pandora.Gen.InstLoop.iterBody = none ∧
+    Pandora.Spec.C11.loopBad earlyReleaseBody = some (true, true, true) := by
+  constructor <;> decide
 
 end Pool
 
